@@ -48,4 +48,42 @@ var Properties = map[string]*Property{
 		Assumptions: []string{"sort.Sort is interpreted from the standard library source (pdqsort/insertion sort), so the verdict covers the real algorithm on k elements"},
 		Outside: []string{"more than k elements", "EntropyOrder (math.Log2 is uninterpreted)", "serialization order of the string table (covered under C01)", "goroutine completion order (C16)"},
 	},
+	"C01": {
+		ID: "C01",
+		Harnesses: []HarnessSpec{
+			{Pkg: "profile", Fn: "VerifC01Varint", Solver: "z3", QuickTimeoutS: 60, ThoroughTimeoutS: 120,
+				What: "decodeVarint(encodeVarint(x)) == x and consumes exactly the encoding, every 64-bit x (all ten lengths)"},
+			{Pkg: "profile", Fn: "VerifC01Packed", Solver: "z3", QuickTimeoutS: 60, ThoroughTimeoutS: 120,
+				What: "Sample.encode/decodeMessage of 0..4 repeated values (packed from 3) in three varint size classes"},
+			{Pkg: "profile", Fn: "VerifC01RoundTrip", Solver: "z3", MaxDecisions: 4000, Quick: map[string]int{"c01.maxtypes": 1}, Thorough: map[string]int{"c01.maxtypes": 2}, QuickTimeoutS: 300, ThoroughTimeoutS: 1500,
+				What: "WriteUncompressed -> ParseUncompressed of a valid profile (1 mapping, 2 functions, 2 locations with 2+1 inline lines, 2 samples, string and numeric labels with three unit shapes, comments incl. empty, all header fields) with all ids, addresses, lines, columns, values, header integers and flags symbolic: every persisted field equal after the documented normalisation; parse(write(q)) re-serializes byte-identically"},
+		},
+		Assumptions: []string{"CheckValid holds for the input (non-zero unique ids)", "all symbolic integers of one run lie in one varint size class (1 byte, 2 bytes, 10 bytes); mixed classes and 3..9-byte encodings are covered by the varint lemma only"},
+		Stubs:   []string{"none (gzip layer not exercised: Write/Parse differ from WriteUncompressed/ParseUncompressed only by compress/gzip)"},
+		Outside: []string{"gzip framing", "profiles larger than the shape", "byte strings accepted by the parser that no serializer produces (covered by C02 for small buffers)", "driver.makeProfileCopier (C10)"},
+	},
+	"C02": {
+		ID: "C02",
+		Harnesses: []HarnessSpec{
+			{Pkg: "profile", Fn: "VerifC02ParseBytes", Solver: "z3", MaxDecisions: 4000, Quick: map[string]int{"c02.n": 5}, Thorough: map[string]int{"c02.n": 7}, QuickTimeoutS: 300, ThoroughTimeoutS: 1700,
+				What: "ParseUncompressed + CheckValid on a buffer of n arbitrary bytes: no panic / out-of-range (every index, slice and nil-dereference obligation on every path), error or validity contract, and on acceptance write, re-parse, Compact succeed"},
+			{Pkg: "profile", Fn: "VerifC02ParseStructured", Solver: "z3", MaxDecisions: 4000, Quick: map[string]int{"c02.payload": 4}, Thorough: map[string]int{"c02.payload": 6}, QuickTimeoutS: 300, ThoroughTimeoutS: 1700,
+				What: "a valid prefix (string table, sample type) followed by one top-level field with symbolic field number, wire type, length and payload bytes (nested Sample/Location/Function/Mapping/Label/Line content): same oracle"},
+		},
+		Stubs:   []string{"gzip = not exercised (ParseUncompressed entry)"},
+		Outside: []string{"legacy text and binary formats on symbolic input (regexp/bufio scanners; C14 covers binary CPU kernels)", "gzip wrappers", "buffers longer than the bound", "the text of String()/reports"},
+	},
+	"C03": {
+		ID: "C03",
+		Harnesses: []HarnessSpec{
+			{Pkg: "profile", Fn: "VerifC03Merge", Solver: "z3", MaxDecisions: 4000, Quick: map[string]int{"c03.variants": 2}, Thorough: map[string]int{"c03.variants": 3}, QuickTimeoutS: 300, ThoroughTimeoutS: 1500,
+				What: "Merge of two profiles (each 1 mapping, 2 functions, 2 locations with 2+1 inline lines, 2 samples; colliding ids allowed) with every id, address, mapping range, line, column, start line, folded flag and value symbolic: for each input stack the result holds exactly one stack equal by content whose value is the sum over all inputs, zero sums vanish, nothing is added, totals conserved, result valid, inputs not written (frame monitor) nor aliased, Compact idempotent"},
+			{Pkg: "profile", Fn: "VerifC03Headers", Solver: "z3", Quick: map[string]int{"c03.hdrk": 2}, Thorough: map[string]int{"c03.hdrk": 3}, QuickTimeoutS: 120, ThoroughTimeoutS: 300,
+				What: "combineHeaders on k profiles with symbolic time/duration/period: max period, earliest non-zero time, summed duration, ordered de-duplicated comments, no aliasing of value-type objects"},
+			{Pkg: "profile", Fn: "VerifC03NilPeriodType", Solver: "z3", QuickTimeoutS: 60, ThoroughTimeoutS: 60,
+				What: "profiles without a period type merge without a crash"},
+		},
+		Assumptions: []string{"inputs satisfy CheckValid", "|value| < 2^40 so that sums are mathematical sums", "time, period, duration non-negative", "the reference identity of a mapping is (build id, else file; offset; size rounded up to a page) as the merge documents"},
+		Outside: []string{"more than two profiles in the stack oracle", "labels in the stack oracle (label handling is covered by C01's encoder and sampleKey's code path with concrete labels)", "order independence beyond the header rules"},
+	},
 }
